@@ -95,6 +95,27 @@ DIMS = (1, 2, 3, 4, 5)
 
 
 # ------------------------------------------------------------------------------------------------ shards
+_LAYOUT_KINDS = set()
+
+
+def _layout_variants(a):
+    """same values, different memory layout / flags (numpy only)"""
+    a = np.asarray(a)
+    out = [('fortran', np.asfortranarray(a))]
+    if a.ndim >= 2:
+        perm = tuple(range(a.ndim - 2)) + (a.ndim - 1, a.ndim - 2)
+        out.append(('transposed-view', np.ascontiguousarray(a.transpose(perm)).transpose(perm)))
+    big = np.zeros(tuple(2 * n for n in a.shape), dtype=a.dtype)
+    sl = tuple(slice(None, None, 2) for _ in a.shape)
+    big[sl] = a
+    out.append(('strided-view', big[sl]))
+    ro = a.copy()
+    ro.setflags(write=False)
+    out.append(('read-only', ro))
+    return out
+
+
+
 def all_configs():
     ret = []
     for din in DIMS:
@@ -1185,6 +1206,22 @@ def drive_channel(ctx, numqi, gh, kop, family, cplx, n_pairs=8, wl='random'):
                     worst_equiv = max(worst_equiv, float(np.abs(o - ref).max()))
                 ctx.close(o, ref, tol, 'equiv/' + name, f'{name} gives a different output state than the reference sum_k K rho K^dagger',
                           {'input_kind': kind, 'rho': rho, 'kraus': kop}, point='equiv/all-representations')
+            # memory layout of the arguments is not part of their value: Fortran-ordered copies, transposed views of a transposed copy,
+            # strided views into a larger buffer and read-only arrays must give the same output state (round 5, seeded C12-i)
+            if kind in _LAYOUT_KINDS or len(_LAYOUT_KINDS) < 3:
+                _LAYOUT_KINDS.add(kind)
+                for lname, rl in _layout_variants(rho):
+                    for name, fn, op in (('apply_kraus_op', Ch.apply_kraus_op, kop), ('apply_choi_op', Ch.apply_choi_op, choi),
+                                         ('apply_super_op', Ch.apply_super_op, sup)):
+                        ctx.close(fn(op, rl), ref, TOL, f'layout/{name}/rho-{lname}',
+                                  f'{name} depends on the memory layout of rho ({lname})', {'input_kind': kind, 'rho': rho, 'kraus': kop},
+                                  point='equiv/memory-layout')
+                for name, fn, op in (('apply_kraus_op', Ch.apply_kraus_op, kop), ('apply_choi_op', Ch.apply_choi_op, choi),
+                                     ('apply_super_op', Ch.apply_super_op, sup)):
+                    for lname, ol in _layout_variants(op):
+                        ctx.close(fn(ol, rho), ref, TOL, f'layout/{name}/op-{lname}',
+                                  f'{name} depends on the memory layout of the channel representation ({lname})',
+                                  {'input_kind': kind, 'rho': rho, 'kraus': kop}, point='equiv/memory-layout')
             if bloch_ok:
                 r_in = rc.bloch_vector(rho).real
                 r_out = rc.bloch_vector(ref).real
